@@ -275,6 +275,10 @@ def _reload(ck, fx, cg):
         except Exception as e:
             ck.ob("R3.reload", "%s keeps sequences intact" % role, False, "", "cannot extract (unprovable): %s" % e)
             continue
+        if role == "program.from_bytes":
+            okp = [p for p in paths or [] if p["out"][0] == "val" and p["out"][1][0] == "ctor"]
+            pp = L.pool_problems(okp[0]) if okp else ["no successful path"]
+            ck.ob("R3.reload", "the loaded pool holds the file's constants one-to-one, in order", not pp, "", "; ".join(pp) or "collected from / pushed by the reading loop, once per constant")
         bad = set()
         for p in paths or []:
             if p["out"][0] == "val" and p["out"][1][0] == "ctor":
